@@ -283,10 +283,21 @@ class Check:
         self.t0 = time.time()
         self._n = 0
         _CURRENT.append(self)
+        # replay files of an earlier run of the same check and tier are stale
+        import glob
+        for f in glob.glob(os.path.join(REPLAY, "%s-%s-*.json" % (pid, tier))):
+            try:
+                os.remove(f)
+            except OSError:
+                pass
 
     def violation(self, key, what, replay_obj):
         """key: stable identification of the failing input; what: human text."""
         self._n += 1
+        if self._n > 300:
+            # a change that breaks everything: the first 300 cases have replay files, the rest are only counted
+            self.violations.append((key, what, self.violations[-1][2]))
+            return
         rp = os.path.join(REPLAY, "%s-%s-%03d.json" % (self.pid, self.tier, self._n))
         os.makedirs(REPLAY, exist_ok=True)
         with open(rp, "w") as f:
